@@ -347,7 +347,7 @@ func (c *Chunker) Chunk(doc *model.Document) (*ChunkResult, error) {
 	// Process each section into chunks
 	chunkIndex := 0
 	for _, section := range sections {
-		sectionChunks := c.chunkSection(section, &chunkIndex, doc.Metadata.Title)
+		sectionChunks := c.chunkSectionTree(section, &chunkIndex, doc.Metadata.Title)
 		result.Chunks = append(result.Chunks, sectionChunks...)
 	}
 
@@ -656,6 +656,16 @@ func (c *Chunker) buildSections(doc *model.Document) []*Section {
 	}
 
 	return sections
+}
+
+// chunkSectionTree processes a section and then its subsections, depth-first,
+// which is the order of the content in the document.
+func (c *Chunker) chunkSectionTree(section *Section, chunkIndex *int, docTitle string) []*Chunk {
+	chunks := c.chunkSection(section, chunkIndex, docTitle)
+	for _, child := range section.Children {
+		chunks = append(chunks, c.chunkSectionTree(child, chunkIndex, docTitle)...)
+	}
+	return chunks
 }
 
 // chunkSection processes a section into chunks
